@@ -84,6 +84,15 @@ func checkC14(w *World, r *Report) {
 				vi = i
 				vArg = strings.TrimSuffix(strings.TrimPrefix(m.Label, "jwtauth.Verifier("), ")")
 			}
+			// Verifier(ja) is Verify(ja, TokenFromHeader, TokenFromCookie) (rule lib.verifier): the
+			// general form with its own finder list verifies with the same JWTAuth
+			if strings.HasPrefix(m.Label, "jwtauth.Verify(") && vi < 0 {
+				vi = i
+				vArg = strings.TrimSuffix(strings.TrimPrefix(m.Label, "jwtauth.Verify("), ")")
+				if j := strings.Index(vArg, ","); j >= 0 {
+					vArg = vArg[:j]
+				}
+			}
 			if m.Label == "jwtauth.Authenticator" && vi >= 0 && ai < 0 {
 				ai = i
 			}
